@@ -2,6 +2,7 @@ pub mod checks;
 pub mod hsys;
 pub mod inv;
 pub mod obs;
+pub mod parseq;
 pub mod plan;
 pub mod planmc;
 pub mod report;
@@ -71,6 +72,15 @@ fn cmd_check(args: &[String]) -> i32 {
     let e2_first = !checks::e2_jobs(&prop, tier).is_empty();
     checks::run_e1(&prop, tier, if e2_first { budget / 3 } else { budget }, &mut frag);
     checks::run_e2(&prop, tier, budget.saturating_sub(t0.elapsed()), &mut frag);
+    if prop == "C11" {
+        checks::run_c11(tier, budget, &mut frag);
+    }
+    if prop == "C15" {
+        checks::run_c15(tier, budget, &mut frag);
+    }
+    if prop == "C16" {
+        checks::run_c16(tier, budget, &mut frag);
+    }
     checks::finish(&prop, tier, frag, t0.elapsed().as_secs_f64(), frag_path.as_deref())
 }
 
